@@ -44,6 +44,8 @@ impl Repr {
         let (mut n0, mut d0) = (IBig::ONE, IBig::ZERO);
         let (mut n1, mut d1) = (IBig::ZERO, IBig::ONE);
         let (num, den) = loop {
+            #[cfg(dashu_verif)]
+            dashu_base::verif::tick(dashu_base::verif::LOOP_SIMPLEST);
             let (q, r1) = num_l.div_rem(&den_l);
 
             n1 += &q * &n0;
@@ -228,6 +230,8 @@ impl RBig {
         // the Farey neighbors can be found directly by adding the
         // numerator and denominator together, see <https://en.wikipedia.org/wiki/Farey_sequence#Farey_neighbours>.
         loop {
+            #[cfg(dashu_verif)]
+            dashu_base::verif::tick(dashu_base::verif::LOOP_FAREY);
             let mut next = Repr {
                 numerator: &left.numerator + &right.numerator,
                 denominator: &left.denominator + &right.denominator,
